@@ -51,6 +51,15 @@ type info struct {
 	Domain  string
 	Epoch   uint64
 	Sig     [96]byte
+
+	// alt: other epochs the object carries that do NOT define its signing domain (attestation:
+	// source checkpoint epoch, epoch of data.slot). Used only to build wrong-domain partials.
+	alt []altEpoch
+}
+
+type altEpoch struct {
+	why   string
+	epoch uint64
 }
 
 func uint64Root(v uint64) [32]byte { // hash_tree_root(uint64)
@@ -259,8 +268,12 @@ func inspect(obj core.SignedData, spe uint64) (info, error) {
 		}
 		in.Type, in.Version, in.Domain = "VersionedAttestation", o.Version.String(), domAttester
 		in.Root, err = v.data.HashTreeRoot()
-		in.Epoch = uint64(v.data.Target.Epoch)
+		in.Epoch = uint64(v.data.Target.Epoch) // phase0 spec: get_domain(state, DOMAIN_BEACON_ATTESTER, data.target.epoch)
 		in.Sig = *v.sig
+		if v.data.Source != nil {
+			in.alt = append(in.alt, altEpoch{"source checkpoint epoch", uint64(v.data.Source.Epoch)})
+		}
+		in.alt = append(in.alt, altEpoch{"epoch of data.slot", uint64(v.data.Slot) / spe})
 	case core.SignedVoluntaryExit:
 		if o.Message == nil {
 			return in, fmt.Errorf("exit without message")
@@ -340,21 +353,25 @@ func inspect(obj core.SignedData, spe uint64) (info, error) {
 // ---- generators ----
 
 type genCtx struct {
-	t   *testing.T
-	rng *rand.Rand
-	spe uint64
+	t      *testing.T
+	rng    *rand.Rand
+	spe    uint64
+	bounds []uint64 // fork activation epochs > 0 of the beacon node's fork schedule
 }
 
-// epoch picks an epoch around the interesting places of the mock's fork schedule
-// (deneb < 2048 <= electra < 50688 <= fulu) or far away.
+// epoch picks an epoch around the interesting places of the beacon node's fork schedule
+// (the mock: deneb < 2048 <= electra < 50688 <= fulu): the two epochs on either side of every
+// fork activation epoch, genesis, or far away.
 func (g *genCtx) epoch() uint64 {
-	switch g.rng.Intn(6) {
+	x := g.rng.Intn(6)
+	if (x == 1 || x == 2) && len(g.bounds) > 0 {
+		b := g.bounds[g.rng.Intn(len(g.bounds))]
+
+		return b - min(b, 2) + uint64(g.rng.Intn(4))
+	}
+	switch x {
 	case 0:
 		return uint64(g.rng.Intn(4))
-	case 1:
-		return 2046 + uint64(g.rng.Intn(4))
-	case 2:
-		return 50686 + uint64(g.rng.Intn(4))
 	case 3:
 		return uint64(g.rng.Intn(60000))
 	case 4:
@@ -448,7 +465,32 @@ func genAttestation(ver eth2spec.DataVersion) func(g *genCtx) (core.SignedData, 
 			// for the validator-index layout. Encoding defect outside C09 (reported); steer around it.
 			v.data.Slot++
 		}
-		v.data.Target.Epoch = eth2p0.Epoch(g.epoch())
+		// Checkpoints. 40%: the attestation straddles a fork activation epoch F (source before F,
+		// target at or after it: every attestation of the first epochs after a hard fork; only the
+		// TARGET epoch defines the signing domain). Otherwise target from the epoch mix with the
+		// source right behind it, a few epochs behind, anywhere, or testutil's random 2^53 value.
+		if g.rng.Intn(100) < 40 && len(g.bounds) > 0 {
+			f := g.bounds[g.rng.Intn(len(g.bounds))]
+			v.data.Target.Epoch = eth2p0.Epoch(f + uint64(g.rng.Intn(2)))
+			v.data.Source.Epoch = eth2p0.Epoch(f - 1 - min(f-1, uint64(g.rng.Intn(2))))
+		} else {
+			te := g.epoch()
+			v.data.Target.Epoch = eth2p0.Epoch(te)
+			switch x := g.rng.Intn(10); {
+			case x < 5 && te > 0:
+				v.data.Source.Epoch = eth2p0.Epoch(te - 1)
+			case x < 7:
+				v.data.Source.Epoch = eth2p0.Epoch(te - min(te, uint64(g.rng.Intn(5))))
+			case x < 9:
+				v.data.Source.Epoch = eth2p0.Epoch(g.epoch())
+			}
+		}
+		if g.rng.Intn(2) == 0 { // slot inside the target epoch (else unrelated: only the target epoch matters)
+			v.data.Slot = eth2p0.Slot(uint64(v.data.Target.Epoch)*g.spe + uint64(g.rng.Intn(int(g.spe))))
+			if uint32(v.data.Slot) == 20 {
+				v.data.Slot++
+			}
+		}
 		if g.rng.Intn(2) == 0 { // as set by the local validator client
 			idx := eth2p0.ValidatorIndex(g.rng.Intn(1 << 20))
 			a.ValidatorIndex = &idx
@@ -581,11 +623,13 @@ func tweak(obj core.SignedData, rng *rand.Rand, spe uint64) (core.SignedData, er
 		if err != nil {
 			return nil, err
 		}
-		switch rng.Intn(3) {
+		switch rng.Intn(4) {
 		case 0:
 			v.data.Index++
 		case 1:
 			v.data.BeaconBlockRoot[rng.Intn(32)] ^= 1 << rng.Intn(8)
+		case 2:
+			v.data.Source.Epoch++
 		default:
 			v.data.Target.Epoch++
 		}
